@@ -10,6 +10,7 @@
 import RoProofs.Gate
 import RoModel.Ops.Aggregate
 import RoProofs.ObsShared
+import RoProofs.ObsPartial
 namespace Ro.C01
 
 /-- (a) the delivered part obeys the grammar — every raw script -/
@@ -57,10 +58,28 @@ theorem shared_observer_partition (evs : List (Nat × Notif Int)) :
     (ObsShared.run evs).trace.length + (ObsShared.run evs).dropped.length = evs.length :=
   ObsShared.shared_observer_partition evs
 
+/-- C01 at the observer end, the partial observers (`OnNext`, `OnError`, `OnComplete`, their WithContext forms,
+    `NoopObserver`; observer.go:204-263) and `NewObserver`: for every raw script, what the user's callback saw is the part
+    of the GATED script that is of its kind — the values before the first terminal for `OnNext`, the first terminal when
+    it is an error for `OnError`, … — and that is grammatical; the terminal is consumed (it does not reach the
+    dropped-notification hook), everything after it is refused and goes to that hook, once, in order. -/
+theorem partial_observer_sees (k : ObsPartial.Ctor) (script : List (Notif Int)) :
+    (ObsPartial.run k ObsPartial.noFault script).seen = (gate script).filter (ObsPartial.sees k) ∧
+    (ObsPartial.run k ObsPartial.noFault script).dropped = gateDropped script ∧
+    Grammar (ObsPartial.run k ObsPartial.noFault script).seen :=
+  ⟨ObsPartial.seen_noFault k script, ObsPartial.dropped_noFault k script, ObsPartial.seen_grammar k script⟩
+
+-- non-vacuity: OnNext sees the two values and not the error nor what follows; the error is consumed, the rest dropped
+example : ObsPartial.run .onNext ObsPartial.noFault [.next {} 1, .next {} 2, .error {} (.user 1), .next {} 3, .complete {}]
+    = ⟨[.next {} 1, .next {} 2], [.next {} 3, .complete {}], []⟩ := by decide
+example : ObsPartial.run .onError ObsPartial.noFault [.next {} 1, .error {} (.user 1), .error {} (.user 2)]
+    = ⟨[.error {} (.user 1)], [.error {} (.user 2)], []⟩ := by decide
+
 end Ro.C01
 
 #print axioms Ro.C01.kernel_grammar
 #print axioms Ro.C01.shared_observer_grammar
+#print axioms Ro.C01.partial_observer_sees
 #print axioms Ro.C01.shared_observer_partition
 #print axioms Ro.C01.kernel_partition
 #print axioms Ro.C01.kernel_idempotent
